@@ -152,9 +152,6 @@ for (f, i, desc, new, kind) in cands:
         rec["status"] = "no-compile"
         summary["no-compile"] += 1
     else:
-        if RUN_TESTS:
-            t = sh("cargo test --workspace --no-fail-fast --offline 2>&1 | grep -E '^test result' | head -1", cwd=repo)
-            rec["tests"] = t.stdout.strip()
         hits, inc = [], []
         for p in PROPS:
             extra = "--programs 6000" if p not in ("C10",) else "--programs 4000 --trials 60"
@@ -171,6 +168,9 @@ for (f, i, desc, new, kind) in cands:
             rec["status"] = "inconclusive"; summary["inconclusive"] += 1
         else:
             rec["status"] = "survived"; summary["survived"] += 1
+            if RUN_TESTS:  # only survivors: does the repository's own suite notice?
+                t = sh("cargo test --workspace --no-fail-fast --offline 2>&1 | grep -E '^test result' | head -1", cwd=repo)
+                rec["tests"] = t.stdout.strip()
     rec["secs"] = round(time.time() - t0, 1)
     open(path, "w").write(orig)
     open(res_path, "a").write(json.dumps(rec) + "\n")
